@@ -64,7 +64,15 @@ Definition check_1903 (fs : list field) : verdict :=
             | Some (v, _) => if wf v && strict v then expect 2 ((e2 =? 0) && (n2 =? n)) [FZ 0; FZ n] else VOk
             | None => VOk
             end)
-    | None => expect 3 (e1 =? 1) [FZ 1]
+    | None => vand (expect 3 (e1 =? 1) [FZ 1])
+                   (* both skippers fail on input the model rejects (finding 1901 fixed: SkipNative used to return nil) *)
+                   (* a value that is only too DEEP for SkipGo (limit 1023) but skippable with an unbounded depth budget:
+                      the native skipper's own stack holds 1024 levels, so it may still succeed there — the depth-limit
+                      boundary is not part of C19 (it is compared under C18) *)
+                   (match skip (S (length bs)) t bs with
+                    | Some _ => if e2 =? 0 then VDrift 41 else VOk
+                    | None => expect 4 (negb (e2 =? 0)) [FZ 1]
+                    end)
     end
   | _ => VBad 99 []
   end.
